@@ -895,10 +895,12 @@ def generate(cluster_file, out_path=None):
     }
     if out_path:
         os.makedirs(os.path.dirname(out_path), exist_ok=True)
-        with open(out_path, "w") as fh:
-            fh.write(text)
-        with open(out_path + ".meta.json", "w") as fh:
-            json.dump(meta, fh)
+        # atomic replace: two checks running at the same time generate the same text for the same tree
+        for path, payload in ((out_path, text), (out_path + ".meta.json", json.dumps(meta))):
+            tmp = f"{path}.{os.getpid()}.tmp"
+            with open(tmp, "w") as fh:
+                fh.write(payload)
+            os.replace(tmp, path)
     return text, meta
 
 
